@@ -17,6 +17,22 @@ def leak_scenarios(rnd, n, start_id):
             st = rnd.choice([0, 0, H, H + 600, 2 * H, 2 * H + 1, 3 * H - 1])
             nd["leak"] = {"on": True, "area": netgen.rgrid(rnd, 0.0001, 0.003, 0.0001), "cd": rnd.choice([0.75, 0.6, 1.0]),
                           "start": st, "end": rnd.choice([-1, st + H, st + H + 777, st + 3 * H])}
+        if i % 4 == 1:
+            # a dead-end junction with a leak that a time control cuts off while the leak is discharging (and reconnects):
+            # an isolated junction reports no leak flow
+            import c02
+            H = s["H"]
+            host = rnd.choice([nd["name"] for nd in s["nodes"] if nd["type"] == "J"])
+            jd = c02.junction("JL", netgen.rgrid(rnd, 0, 10, 2.5), [{"base": 0.001, "pat": ""}])
+            jd["leak"] = {"on": True, "area": netgen.rgrid(rnd, 0.0002, 0.002, 0.0002), "cd": 0.75, "start": rnd.choice([0, H]), "end": -1}
+            s["nodes"].append(jd)
+            s["links"].append({"name": "PL", "type": "pipe", "a": host, "b": "JL", "len": 200.0, "diam": 0.25, "rough": 100.0,
+                               "minor": 0.0, "cv": False, "init": 1})
+            k = len(s["links"])
+            t0 = H * rnd.randint(2, 3)
+            s["ctl"].append({"kind": "sim", "thr": t0, "rep": 0, "link": k, "val": 0, "prio": 3})
+            if rnd.random() < 0.6:
+                s["ctl"].append({"kind": "sim", "thr": t0 + H * rnd.randint(1, 2), "rep": 0, "link": k, "val": 1, "prio": 3})
         if i % 5 == 0:      # undersized source: negative pressures in demand-driven mode
             s["mode"] = "DD"
             for nd in s["nodes"]:
@@ -33,17 +49,21 @@ def check_remove_leak(ck, w, rnd, after_run=False):
     wn = simnet.build(w, s)
     n_before = len(list(wn.controls()))
     if after_run:
-        # history: run with the leaks (some still active at the end), then remove them, reset and run again
+        # history: run with the leaks (some still active at the end), then remove them, and either reset and run again or
+        # CONTINUE the paused run (after_run == "continue"): the removed leak must not discharge in the continuation
         for nd in s["nodes"]:
             if nd.get("leak", {}).get("on"):
                 nd["leak"]["end"] = -1
                 wn._discard_control(wn.get_node(nd["name"])._leak_end_control_name)
+        if after_run == "continue":
+            wn.options.time.duration = (s["Dur"] // s["H"] // 2) * s["H"]
         simnet.run_wntr(w, wn, HW_approx=s["hw"])
+        wn.options.time.duration = s["Dur"]
     for nd in s["nodes"]:
         if nd.get("leak", {}).get("on"):
             wn.get_node(nd["name"]).remove_leak(wn)
             nd["leak"]["on"] = False
-    if after_run:
+    if after_run and after_run != "continue":
         wn.reset_initial_values()
     leftover = [name for name, c in wn.controls() if "leak" in name.lower()]
     if leftover:
@@ -92,7 +112,7 @@ def main(tier, replay):
             return None
         hyd.selftest(ck, "C08", good, props, mutate)
         for k in range(6 if tier == "quick" else 60):
-            check_remove_leak(ck, common.import_wntr(), rnd, after_run=bool(k % 2))
+            check_remove_leak(ck, common.import_wntr(), rnd, after_run=(False, "reset", "continue")[k % 3])
         c = ck.cov["counters"]
         for k in ("leak_rows_inactive", "leak_rows_positive_pressure", "windows_off_grid", "leaks_on_J"):
             if not c.get(k):
